@@ -1,9 +1,17 @@
 #!/bin/sh
-# Builds the framework offline from files on disk only.
+# Builds the framework offline from files on disk only (engines, generated program crates).
 set -e
 cd "$(dirname "$0")"
 export CARGO_NET_OFFLINE=true
-export CARGO_TARGET_DIR="$PWD/build/target"
 mkdir -p build/out evidence replays
-(cd engines && cargo build --release --offline -p hist 2>&1 | tail -3)
+(cd engines && CARGO_TARGET_DIR="$PWD/../build/target" cargo build --release --offline 2>&1 | tail -2)
+./build/target/release/pgen --selftest
+# pre-build the quick-tier program families so that the quick commands only run
+python3 - <<'PY'
+import sys
+sys.path.insert(0, '.')
+from vlib import props
+for fam in props.QUICK_FAMILIES:
+    props.build_family(fam, "quick")
+PY
 echo "setup ok"
